@@ -160,8 +160,9 @@ def check_c50(ctx):
 # ----------------------------------------------------------------------------- C51
 
 KEYSETS = ["oct2", "oct-hs256", "rsa", "rsa-rs256", "ec-es256", "mixed"]
-TIMES_T = ["none", "exp-future", "exp-past", "nbf-past", "nbf-future", "exp-future-nbf-future",
-           "exp-future-nbf-past", "iat-future"]
+EXPS = ["absent", "future", "past"]
+NBFS = ["absent", "past", "future"]
+IATS = ["absent", "past", "soon", "far"]
 HDRS_T = ["bearer", "absent", "lower", "two-spaces", "basic-scheme", "no-token", "extra-part", "two-segments"]
 SCHEMES = ["basic", "jwt", "slink", "blockip", "blockrule", "authreq"]
 
@@ -179,7 +180,7 @@ def check_c51(ctx):
                        "tokens signed with stdlib crypto, signed links, blocklists and a loopback auth service and "
                        "drives the handlers the modules registered. distinct = distinct inputs.")
     d = {"SCHEMES": tla_set(SCHEMES), "KEYSETS": tla_set(KEYSETS),
-         "TIMES": tla_set(TIMES_T), "HDRS": tla_set(HDRS_T),
+         "EXPS": tla_set(EXPS), "NBFS": tla_set(NBFS), "IATS": tla_set(IATS), "HDRS": tla_set(HDRS_T),
          "MAXRULES": 2 if q else 3}
     ctx.cov["constants"]["Access"] = d
     hdr, cases = tlc_cases(ctx, "GenAccess", "GenMC_Access.cfg", d, timeout=2400, label="access")
